@@ -2,26 +2,15 @@
 """Regenerates MANIFEST.json's `checks` from the table below (keeps everything else)."""
 import json, os
 HERE = os.path.dirname(os.path.dirname(os.path.abspath(__file__)))
-CHECKS = {
- 'C03': ("5/C03", "LAO* under scheduler-chosen initial-state, action and successor orders (incl. sorted/reversed/rotated orders no small seed set yields); per-iteration upper-bound invariant via the listener; result compared with an independent exact solver and exact policy evaluation",
-         "reference value iteration + linear solves on harness-owned tables; workloads <= 7 states; tolerance 1e-6 relative"),
- 'C04': ("5/C04", "LRTDP trial histories chosen by the scheduler (rare branches, then cooperative so every trial ends); upper-bound, label-stability and sampled-successor invariants at every listener event; eps*N bound against an exact solver; Bonet-Geffner trial bound as bounded liveness",
-         "eps*N clauses applied with every admissible heuristic (constant, zero, exact, exact+slack, per-state noisy slack); value monotonicity and the trial bound only with monotone ones; proper MDPs <= 7 states"),
- 'C05': ("5/C05", "A*/BFS with scheduler-chosen tie-break floats and action permutations (monotone, reversed, random), four model representations; path validity, optimal cost = Dijkstra, min steps = BFS, None iff unreachable",
-         "Dijkstra/BFS reference on the spec graph; integer costs compared exactly; graphs <= 8 states"),
- 'C09': ("5/C09", "controller execution with the scheduler choosing every action, successor and observation (biased to low-probability actions); per-step conditional action probabilities vs a reference node filter; exact evaluation vs reference chain; BPI/gradient-ascent results and BPI's per-iteration values through the module-level evaluator seam",
-         "learners are driven by seed only (numpy/torch generators not behind a seam); POMDPs 2-4 states"),
- 'C10': ("5/C10", "all four TD learners with the scheduler deciding every initial state, exploration coin, action choice, tie-break and successor; per-step fold of the published update rule checked inside the listener, final table, interval and greedy-policy clauses afterwards; listener re-entrancy as a perturbation",
-         "proper MDPs <= 6 non-absorbing states; tolerance 1e-9 relative on exact folds"),
- 'C13': ("5/C13", "every seeded component executed in a reference environment and in perturbed ones: reseeded/drawn-from global random, numpy and torch generators before and during the run (at model call-backs, listener call-backs and private-stream draws), fresh interpreters under other PYTHONHASHSEED values, reused learner/model objects, aborted-then-rerun; global generator state accounted between every two seam events; canonical result digests must agree",
-         "hash randomisation is controlled only through its seed; numpy/torch global state compared by full state snapshot"),
- 'C14': ("5/C14", "MDP and POMDP roll-outs with the scheduler as the generator argument, step caps placed around the absorption time the scheduler is about to realise; trajectory validity against the spec, agent-state chaining, stop rule, returns recursion, Monte-Carlo book-keeping recomputed from the recorded roll-outs",
-         "spec tables as the reference model; both visit-counting conventions for the closing state accepted"),
- 'C15': ("5/C15", "option executions and semi-MDP simulations with the scheduler deciding every draw and max_steps placed around the realised termination time; recorded simulations -> empirical (end state, steps, discounted reward) distribution; static augment/sub_task clauses ride along on every workload",
-         "boundary max_steps-1/max_steps accepted either way (statement does not choose); ValueIteration used only as the option's planner, oracle is the harness solver"),
- 'C17': ("5/C17", "R-MAX with the scheduler choosing initial states, tie actions and successors (rare-biased so first-m samples are unrepresentative and pairs sit at m-1 samples); empirical model rebuilt from the listener's history; optimism, threshold, Bellman-of-empirical-model and greedy-policy clauses",
-         "proper MDPs with uniform action sets <= 6 states, discount < 1"),
-}
+CHECKS = {'C03': ('5/C03', 'LAO* under scheduler-chosen initial-state, action and successor orders (incl. sorted/reversed/rotated orders no small seed set yields); per-iteration upper-bound invariant via the listener; result compared with an independent exact solver and exact policy evaluation; faults: planner object first used on a sibling problem (F5) or aborted mid-run from a model call-back (F6), iteration cap replayed at exactly the expansions needed (F7), model hands out aliased action lists', 'reference policy iteration + linear solves on harness-owned tables; workloads <= 7 states (rewards up to |60|, discounts 0.5..0.999 and 1); tolerance 1e-6 relative'),
+ 'C04': ('5/C04', 'LRTDP trial histories chosen by the scheduler (rare branches, then cooperative so every trial ends); upper-bound, label-stability and sampled-successor invariants at every listener event; eps*N bound against an exact solver; Bonet-Geffner trial bound as bounded liveness; faults: F5/F6 on the planner object, trial cap replayed at exactly the trials needed (F7), model updated in place between runs (F9), shared/cached action lists', 'eps*N clauses applied with every admissible heuristic (constant, zero, exact, exact+slack, per-state noisy slack); value monotonicity and the trial bound only with monotone ones; proper MDPs <= 7 states'),
+ 'C05': ('5/C05', 'A*/BFS with scheduler-chosen tie-break floats and action permutations (monotone, reversed, random), five model representations, graphs of 1-8 and 15-60 states; path validity, optimal cost = Dijkstra, min steps = BFS, None iff unreachable', 'Dijkstra/BFS reference on the spec graph; integer costs compared exactly'),
+ 'C09': ('5/C09', "controller execution with the scheduler choosing every action, successor and observation (biased to low-probability actions); start state and per-step conditional action probabilities vs a reference node filter; exact evaluation vs reference chain; BPI/gradient-ascent results and BPI's per-iteration values through the module-level evaluator seam", "learners are driven by seed only (numpy/torch generators not behind a seam); POMDPs 2-4 states; row-stochasticity up to the LP solver's feasibility tolerance; one open known finding (evaluator keeps accumulating after absorption)"),
+ 'C10': ('5/C10', "all four TD learners with the scheduler deciding every initial state, exploration coin, action choice, tie-break and successor (also on the unseeded path, whose 'global' stream the scheduler owns); per-step fold of the published update rule checked inside the listener, final table, interval and greedy-policy clauses afterwards; faults: listener re-entrancy (F8), learner first trained on a sibling problem (F5) or aborted mid-run (F6), model updated in place (F9), aliased action lists", 'proper MDPs <= 6 non-absorbing states; tolerance 1e-9 relative on exact folds'),
+ 'C13': ('5/C13', 'every seeded component executed in a reference environment and in perturbed ones: reseeded/drawn-from global random, numpy and torch generators before and during the run (at model call-backs, listener call-backs and private-stream draws), reused learner/model objects, aborted-then-rerun, equal-keyed twin problems, the unpatched library; global generator state accounted between every two seam events; equally seeded generators on the same object; fresh interpreters under other PYTHONHASHSEED values and with a different process history; canonical result digests must agree', 'hash randomisation is controlled only through its seed; numpy/torch global state compared by full state snapshot; cross-process digests round floats to 9 significant digits'),
+ 'C14': ('5/C14', 'MDP and POMDP roll-outs with the scheduler as the generator argument, step caps placed around the absorption time the scheduler is about to realise (F7), long strongly-discounted roll-outs, policies updated in place between roll-outs (F9); trajectory validity against the spec, agent-state chaining, stop rule, returns recursion, Monte-Carlo book-keeping recomputed from the recorded roll-outs', 'spec tables as the reference model; both visit-counting conventions for the closing state accepted'),
+ 'C15': ('5/C15', 'option executions and semi-MDP simulations with the scheduler deciding every draw and max_steps placed around the realised termination time (F7); recorded simulations -> empirical (end state, steps, discounted reward) distribution; cross-call consistency with the genuine streams (seed given and seed=None); static augment/sub_task clauses ride along on every workload', "boundary max_steps-1/max_steps accepted either way (statement does not choose); ValueIteration used only as the option's planner, oracle is the harness solver"),
+ 'C17': ('5/C17', "R-MAX with the scheduler choosing initial states, tie actions and successors (rare-biased so first-m samples are unrepresentative and pairs sit at m-1 samples); empirical model rebuilt from the listener's history and checked at every end of episode and on the result; faults: F5/F6 on the learner object, model updated in place (F9), explicit (permuted, with unreachable states) state lists, discounts up to 0.999", 'proper MDPs with uniform action sets <= 6 states, discount < 1')}
 m = json.load(open(os.path.join(HERE, 'MANIFEST.json')))
 have = [c for c in sorted(CHECKS) if os.path.exists(os.path.join(HERE, 'checks', c.lower() + '.py')) and c in (os.environ.get('ONLY', ' '.join(CHECKS)).split())]
 m['checks'] = []
